@@ -6,9 +6,12 @@
 
 use std::any::TypeId;
 
-use crate::block::BatchMode;
+use crate::block::{BatchMode, NextStrategy};
 use crate::config::RuntimeConfig;
-use crate::network::{Coord, NetworkMessage, NetworkSender, NetworkTopology, ReceiverEndpoint};
+use crate::network::{
+    Coord, NetworkMessage, NetworkReceiver, NetworkSender, NetworkTopology, ReceiverEndpoint,
+};
+use crate::operator::end::End;
 use crate::operator::{BinaryElement, ExchangeData, Operator, Start, StreamElement};
 use crate::scheduler::{BlockId, ExecutionMetadata};
 use crate::stream::Stream;
@@ -218,4 +221,88 @@ pub struct GraphDump {
     pub links: Vec<((u64, u64, u64), (u64, u64, u64), bool)>,
     /// demultiplexer sockets ((block, host, previous block), address, port)
     pub ports: Vec<((u64, u64, u64), String, u16)>,
+}
+
+/// One downstream replica of [`Net`]: the receiving end of the channel the real `End`
+/// operator of the block under test sends to.
+pub struct NetReceiver<T: ExchangeData> {
+    pub coord: Coord,
+    receiver: NetworkReceiver<T>,
+}
+
+impl<T: ExchangeData> NetReceiver<T> {
+    /// Every batch currently queued, in arrival order (never blocks).
+    pub fn drain(&self) -> Vec<Vec<StreamElement<T>>> {
+        let mut res = vec![];
+        while let Ok(msg) = self.receiver.try_recv() {
+            res.push(msg.into_iter().collect());
+        }
+        res
+    }
+}
+
+impl Net {
+    /// Connect the replica under test to `replicas` replicas of the downstream block
+    /// `block_id`; returns their receiving ends.
+    pub fn add_next<T: ExchangeData>(
+        &mut self,
+        block_id: BlockId,
+        replicas: CoordUInt,
+    ) -> Vec<NetReceiver<T>> {
+        let typ = TypeId::of::<T>();
+        let mut res = vec![];
+        for replica_id in 0..replicas {
+            let coord = Coord::new(block_id, 0, replica_id);
+            self.topology.connect(self.dest, coord, typ, false);
+            let receiver = self
+                .topology
+                .get_receiver(ReceiverEndpoint::new(coord, self.dest.block_id));
+            res.push(NetReceiver { coord, receiver });
+        }
+        res
+    }
+}
+
+/// How the real `End` operator chooses the receiving replica of each downstream block.
+pub enum EndStrategy {
+    OnlyOne,
+    Random,
+    All,
+}
+
+/// Close a stream's chain with the real `End` operator (as `split_block` does).
+pub fn end_chain<Op>(
+    stream: Stream<Op>,
+    strategy: EndStrategy,
+    batch_mode: BatchMode,
+) -> impl Operator<Out = ()>
+where
+    Op: Operator + 'static,
+    Op::Out: ExchangeData,
+{
+    let strategy = match strategy {
+        EndStrategy::OnlyOne => NextStrategy::only_one(),
+        EndStrategy::Random => NextStrategy::random(),
+        EndStrategy::All => NextStrategy::all(),
+    };
+    End::new(stream.block.operators, strategy, batch_mode)
+}
+
+/// Close a stream's chain with the real `End` operator using the group-by strategy on `keyer`.
+pub fn end_chain_group_by<Op, K, F>(
+    stream: Stream<Op>,
+    keyer: F,
+    batch_mode: BatchMode,
+) -> impl Operator<Out = ()>
+where
+    Op: Operator + 'static,
+    Op::Out: ExchangeData,
+    K: std::hash::Hash,
+    F: Fn(&Op::Out) -> K + Send + Clone + 'static,
+{
+    End::new(
+        stream.block.operators,
+        NextStrategy::group_by(keyer),
+        batch_mode,
+    )
 }
